@@ -16,8 +16,19 @@ COMBOS = [("f64", "blake3_256", 1), ("f128", "blake3_256", 1), ("f62", "rp62_248
 
 
 def model(tier, chk="1"):
-    return vlib.run_tlc("MC_Fri", "MC_Fri", workers=4, env={"FRI_MAXLN": 8 if tier == "quick" else 12, "FRI_CHK": chk},
+    return vlib.run_tlc("MC_Fri", "MC_Fri", workers=4, env={"FRI_MAXLN": 8 if tier == "quick" else 12, "FRI_CHK": chk, "FRI_REMCHECK": "zerotail"},
                         tag="MC_Fri_" + chk, timeout=3000, xmx="6g")
+
+
+def next_pow2(x):
+    p = 1
+    while p < x:
+        p *= 2
+    return p
+
+
+def bound_text(c):
+    return "%d (%d coefficients)" % (c["ncoef"] - 1, c["ncoef"]) if c.get("ncoef") else "2^%d-1" % c["ln"]
 
 
 def run_cases(exe, cases, wd, name):
@@ -43,6 +54,11 @@ def run(tier, seed):
     if rv.violation != "SchedInvOldDomain":
         raise vlib.ToolError("self-test: the verifier domain inferred from the degree (pre-fix) is not refuted (%s)" % rv.violation)
     log("[tlc] pre-fix variant (verifier domain from the degree instead of the number of coefficients) refuted")
+    for variant, cfg, inv in (("length", "MC_Fri_remlength", "BoundCompleteInv"), ("domain", "MC_Fri_remdomain", "BoundSoundInv")):
+        rv = vlib.run_tlc("MC_Fri", cfg, workers=2, env={"FRI_MAXLN": 6, "FRI_CHK": "1", "FRI_REMCHECK": variant}, tag=cfg, timeout=1200, xmx="4g")
+        if rv.violation != inv:
+            raise vlib.ToolError("self-test: the remainder-degree check variant '%s' is not refuted (%s)" % (variant, rv.violation))
+    log("[tlc] remainder-degree check: 'length' (pre-fix) refuted on completeness, 'domain' refuted on soundness, 'zerotail' holds on both")
     sched = [p for p in r.printed if p.get("kind") == "sched"]
     # the DefaultProverChannel used for the replay documents that it needs a domain of at least 8 points
     sched = [s for s in sched if s["ln"] + s["lb"] >= 3]
@@ -59,11 +75,22 @@ def run(tier, seed):
         cases.append({"id": i, "field": f, "hasher": h, "ext": e, "ln": s["ln"], "lb": s["lb"], "fold": s["fold"], "rem": s["rem"],
                       "q": q, "poly": polys[i % 4], "strategy": "reuse" if i % 5 == 0 else "honest", "dup": i % 2 == 0, "seed": seed + i,
                       "model_layers": s["layers"]})
+    # degree bounds whose number of coefficients is not a power of two (the verifier takes the bound as a number)
+    bounds = [p for p in r.printed if p.get("kind") == "bound"]
+    if tier == "quick":
+        bounds = bounds[seed % 5::5]
+    for s in bounds:
+        i = len(cases)
+        f, h, e = COMBOS[i % len(COMBOS)]
+        d = next_pow2(s["m"]) * 2 ** s["lb"]
+        cases.append({"id": i, "field": f, "hasher": h, "ext": e, "ln": 0, "ncoef": s["m"], "lb": s["lb"], "fold": s["fold"], "rem": s["rem"],
+                      "q": min([1, 7, 32, 80][i % 4], d - 1), "poly": polys[(i // 4) % 4], "strategy": "reuse" if i % 5 == 0 else "honest", "dup": i % 2 == 0,
+                      "seed": seed + i, "model_layers": s["layers"]})
     obs = run_cases(exe, cases, wd, "honest")
     ok = 0
     for c, o in zip(cases, obs):
-        ctx = "degree bound 2^%d-1, blowup %d, folding %d, remainder degree %d, %d queries, %s/%s/ext%d, polynomial %s" % (
-            c["ln"], 2 ** c["lb"], c["fold"], c["rem"], c["q"], c["field"], c["hasher"], c["ext"], c["poly"])
+        ctx = "degree bound %s, blowup %d, folding %d, remainder degree %d, %d queries, %s/%s/ext%d, polynomial %s" % (
+            bound_text(c), 2 ** c["lb"], c["fold"], c["rem"], c["q"], c["field"], c["hasher"], c["ext"], c["poly"])
         if "prover_panic" in o:
             v.violation("fri/honest/prover-" + o["prover_panic"], "honest FRI prover fails on a well-formed schedule: %s (%s)" % (o["prover_panic"], ctx), c)
             continue
@@ -96,7 +123,8 @@ def run(tier, seed):
         "states": r.distinct, "transitions": r.generated, "traces_validated_against_impl": len(cases) + fold_events,
         "samples": cases[:2] + [p for p in r.printed if p.get("kind") == "layout"][:2],
         "evaluations": len(cases), "distinct_nontrivial": len(cases),
-        "rule": "every well-formed (degree bound, blowup 2..128, folding 2/4/8/16, remainder degree 0..255) tuple of MC_Fri.tla with LDE size <= 2^%d%s; "
+        "bound_cases": len(bounds),
+        "rule": "every well-formed (degree bound 2^k-1 and bounds with 3,5,6,7,9,11 x 2^j coefficients, blowup 2..128, folding 2/4/8/16, remainder degree 0..255) tuple of MC_Fri.tla with LDE size <= 2^%d%s; "
                 "polynomial kinds random/bound/const/zero, query counts 1/7/32/80, duplicated and colliding positions on every second case" % (
                     10 if tier == "quick" else 14, " (every third)" if tier == "quick" else ""),
         "exhaustive": False, "accepted": ok,
